@@ -84,10 +84,7 @@ def run(ctx):
                 _ = info.source.n_data
                 v2_ = np.array(info.source.valid, copy=True)
                 v2_[int(np.where((v2_ == 1) | (v2_ == 4))[0][0])] = 0
-                if rng.random() < 0.5:
-                    info.source.valid = v2_
-                else:
-                    info.source.valid[:] = v2_
+                info.source.valid = v2_          # (re-assigned through the public attribute; in-place edits of the array are not claimed)
                 ctx.regime('flags-changed-after-n_data-was-read')
             infos.append(info)
         path = os.path.join(d, 'in_%d.out' % ic)
@@ -140,13 +137,13 @@ def run(ctx):
                 ctx.regime('outputs:re-used-names')
                 wit['earlier_threshold_same_names'] = thr0
             except Exception as exc:
-                ctx.violation('filter_output:raised:%s' % type(exc).__name__, 'filter_output raised: %r' % (exc,), dict(wit, threshold=thr0))
+                ctx.raised(exc, 'filter_output:raised:%s' % type(exc).__name__, 'filter_output raised: %r' % (exc,), dict(wit, threshold=thr0))
                 continue
         try:
             with effects.trace() as tr:
                 filter_output(inp, **kw, **{crit: thr})
         except Exception as exc:
-            ctx.violation('filter_output:raised:%s' % type(exc).__name__, 'filter_output raised: %r' % (exc,), wit)
+            ctx.raised(exc, 'filter_output:raised:%s' % type(exc).__name__, 'filter_output raised: %r' % (exc,), wit)
             continue
         wrote = sorted(set(os.path.abspath(p) for p in tr.produced(under=d)))
         third = []
@@ -166,7 +163,7 @@ def run(ctx):
             try:
                 out[label] = [] if (not os.path.exists(pth) or os.path.getsize(pth) == 0) else read_all(pth)
             except Exception as exc:
-                ctx.violation('output-unreadable', 'an output file cannot be read back: %r' % (exc,), dict(wit, which=label))
+                ctx.raised(exc, 'output-unreadable', 'an output file cannot be read back: %r' % (exc,), dict(wit, which=label))
                 out = None
                 break
         if out is None:
@@ -201,7 +198,7 @@ def run(ctx):
                                  probe.same(m1.extinction_law.wav.to(u.micron).value, m0.extinction_law.wav.to(u.micron).value) and
                                  probe.same(m1.extinction_law.chi.to(u.cm ** 2 / u.g).value, m0.extinction_law.chi.to(u.cm ** 2 / u.g).value))
                 except Exception as exc:
-                    ctx.violation('split:metadata-unreadable', 'the fit set-up stored with an output cannot be read: %r' % (exc,), dict(wit, which=label))
+                    ctx.raised(exc, 'split:metadata-unreadable', 'the fit set-up stored with an output cannot be read: %r' % (exc,), dict(wit, which=label))
                     break
                 ctx.event('metadata:checked')
                 if not same_meta:
